@@ -222,7 +222,8 @@ class CellCycleController:
         lock = ctx.acquired_resources[resource_id]
         released = lock.release(owner=ctx.operation_id)
 
-        if released:
+        if released and lock.owner != ctx.operation_id:
+            # Fully released; a re-entrant hold keeps its record until the last release
             del ctx.acquired_resources[resource_id]
             self.dependency_graph.remove_all_for_agent(ctx.operation_id)
 
@@ -231,7 +232,10 @@ class CellCycleController:
     def release_all_resources(self, ctx: OperationContext) -> None:
         """Release all resources held by an operation."""
         for resource_id in list(ctx.acquired_resources.keys()):
-            self.release_resource(ctx, resource_id)
+            # Re-entrant acquisitions need one release per hold
+            while resource_id in ctx.acquired_resources:
+                if not self.release_resource(ctx, resource_id):
+                    break
 
     def check_deadlock(self) -> Optional[DeadlockInfo]:
         """Check for deadlocks in current operations."""
